@@ -128,13 +128,25 @@ def cache_roles(F):
     return {"path": path, "svd": svd[0], "mats": mats, "all": [f["name"] for f in fs]}
 
 
-def lsp_impls(F):
-    """{flavour self_ty: {method: Body}} for every impl of LeastSquaresProblem on LevMarProblem"""
+def default_opaque(F):
+    """callees that rules keep symbolic: the two weight-multiplication operators"""
+    return frozenset(k for k in F.bodies if " as std::ops::Mul<" in k)
+
+
+def merged(F, b):
+    """the body with its private helpers spliced in (inline.py): one control-flow graph per analysed method"""
+    import inline
+    return inline.inlined(F, b, no_inline=default_opaque(F))
+
+
+def lsp_impls(F, merge=True):
+    """{flavour self_ty: {method: Body}} for every impl of LeastSquaresProblem on LevMarProblem; the bodies are
+    the merged views (private helpers inlined) unless merge=False"""
     out = {}
     for b in F.bodies.values():
         im = b.j.get("impl")
         if im and im.get("trait") == TRAIT_LSP and im.get("self_adt") == ADT_PROBLEM:
-            out.setdefault(im["self_ty"], {})[b.name] = b
+            out.setdefault(im["self_ty"], {})[b.name] = merged(F, b) if merge else b
     return out
 
 
@@ -170,7 +182,10 @@ def trait_impl_methods(F, trait, self_adt=None, name=None):
 
 
 def body_and_closures(F, b):
-    return [b] + F.all_closures_under(b.key)
+    out = [b] + F.all_closures_under(b.key)
+    for k in b.j.get("inlined", []):
+        out.extend(F.all_closures_under(k))
+    return out
 
 
 def is_model_call(t, name=None):
